@@ -373,6 +373,9 @@ class Interp:
             mutable = (old.dialect == "np" and old.kind in ("a0", "a1")) or (old.dialect == "abs" and old.kind == "vec")
             if mutable and op in ("+", "-", "*", "/"):
                 return A.inplace_binop(op, old, rhs)
+            if old.dialect == "abs" and old.kind == "sc" and op in ("+", "-", "*", "/"):
+                # a scalar-like engine value may be a 0-d / length-1 ndarray: op= then writes into it
+                A._check_writable(old, f"in-place {op}= on an engine value")
         if isinstance(old, list) and op == "+":
             if isinstance(rhs, SSeq):
                 raise Unsupported("list += symbolic sequence")
@@ -1062,6 +1065,7 @@ class Interp:
         if v is None:
             return False
         if isinstance(v, T.Term):
+            self._check_not_symbolic_param(v)
             if v.sort == T.BOOL:
                 return v
             return T.ne(v, 0)
@@ -1089,6 +1093,20 @@ class Interp:
         if isinstance(v, (LocalObj, ObjRef, ClassValue, FuncValue, BoundMethod, Builtin, OpaqueStr, SymName)):
             return True
         raise Unsupported(f"truth value of {type(v).__name__}")
+
+    def _check_not_symbolic_param(self, t):
+        """model parameters may be CasADi symbols (C16): a python-level truth test of a value
+        computed from one would raise under CasADi"""
+        c = cur()
+        names = getattr(c, "maybe_symbolic", None)
+        if not names:
+            return
+        for x in T.subterms([t]):
+            nm = x.args[0] if x.op == "var" else (x.op[3:] if x.op.startswith("uf:") else None)
+            if nm in names:
+                c.oblige("safe", f"no python-level truth test of a value computed from the model parameter {nm} (may be a CasADi symbol)",
+                         T.FALSE, assume_after=False)
+                return
 
     def truth(self, v, why=""):
         t = self.truth_term(v)
